@@ -129,6 +129,16 @@ def scenario_data(case):
         off2 = rng.normal(size=(n, 3)) * 0.3 * scale
     base = 1.5e9 if case.get("epoch") else 0.0
     stamps = base + np.cumsum(dt)
+    int_pos = case.get("int_pos", "none")
+    rng2 = np.random.default_rng([int(case["seed"]), n, 21])    # new draws never disturb the data of older cases
+    if int_pos.startswith("first"):
+        # whole-number waypoints, handed to the constructor as integers (int ndarray / nested lists of Python ints):
+        # the trajectory keeps that dtype; the other trajectory has fractional coordinates
+        pos = np.cumsum(rng2.integers(-3, 4, size=(n, 3)), axis=0).astype(float)
+        if gen == "utm":
+            pos = pos + np.array([410000.0, 5600000.0, 312.0])
+        if gen == "dyadic":
+            off2 = off2 + 0.25
     poses = np.zeros((n, 4, 4))
     poses[:, :3, :3] = rots
     poses[:, :3, 3] = pos
@@ -136,6 +146,9 @@ def scenario_data(case):
     n2 = n - 1 if case.get("corr_mismatch") else n
     poses2 = poses[:n2].copy()
     poses2[:, :3, 3] += off2[:n2]
+    if int_pos.startswith("second"):
+        # (+ 0.0: an integer has no negative zero)
+        poses2[:, :3, 3] = np.rint(poses2[:, :3, 3] * (100.0 if gen != "utm" and np.max(np.abs(pos)) < 1.0 else 1.0)) + 0.0
     start = None
     if case["start"] == "zero":
         start = 0.0
@@ -148,6 +161,16 @@ def scenario_data(case):
         err_x = stamps - stamps[0]
     elif case["err_x"] == "distances":
         err_x = np.concatenate([[0.0], np.cumsum(np.linalg.norm(np.diff(pos, axis=0), axis=1))])
+    elif case["err_x"] == "lap":          # time within the lap: restarts from 0 (two and a half laps)
+        t = np.cumsum(dt)
+        err_x = np.fmod(t, t[-1] / 2.5)
+    elif case["err_x"] == "decreasing":   # e.g. remaining time / distance to the goal
+        t = np.cumsum(dt)
+        err_x = (t[-1] - t) + 0.5
+    elif case["err_x"] == "ties":         # few distinct values, repeated, not ordered: 0 2 1 3 ...
+        err_x = np.array(([0.0, 2.0, 1.0, 3.0] * (n // 4 + 1))[:n]) if n < 6 else rng2.integers(0, 4, size=n).astype(float)
+    elif case["err_x"] == "shuffled":     # an arbitrary x array
+        err_x = rng2.permutation(np.cumsum(dt))
     return {"poses": poses, "poses2": poses2, "stamps": stamps if case["stamps"] else None, "start": start,
             "err": err, "err_x": err_x}
 
@@ -232,13 +255,43 @@ def impl_scenario(case):
             v = case["settings"][k]
             SETTINGS[k] = unhex(v) if k == "plot_axis_marker_scale" else v
         mode, unit = plot.PlotMode[case["mode"]], Unit[case["unit"]]
-        if d["stamps"] is not None:
-            t1 = PoseTrajectory3D(poses_se3=list(d["poses"]), timestamps=d["stamps"].copy())
-            t2 = PoseTrajectory3D(poses_se3=list(d["poses2"]), timestamps=d["stamps"][:len(d["poses2"])].copy())
-        else:
-            t1, t2 = PosePath3D(poses_se3=list(d["poses"])), PosePath3D(poses_se3=list(d["poses2"]))
+        ip = case.get("int_pos", "none")
+
+        def build(poses, stamps, how):
+            if how is None:
+                if stamps is not None:
+                    return PoseTrajectory3D(poses_se3=list(poses), timestamps=stamps.copy())
+                return PosePath3D(poses_se3=list(poses))
+            # whole-number positions given as integers + orientations as quaternions
+            from scipy.spatial.transform import Rotation
+            xyz = np.rint(poses[:, :3, 3]).astype(np.int32 if how == "i32" else np.int64)
+            if not np.array_equal(xyz, poses[:, :3, 3]):
+                raise common.HarnessError("C20: integer scenario without whole-number positions")
+            if how == "list":
+                xyz = [[int(v) for v in row] for row in xyz]
+            quat = Rotation.from_matrix(poses[:, :3, :3]).as_quat()[:, [3, 0, 1, 2]]
+            if stamps is not None:
+                return PoseTrajectory3D(xyz, quat, stamps.copy())
+            return PosePath3D(xyz, quat)
+        how = {"first": "nd", "first_list": "list", "first_i32": "i32", "second": "nd", "second_list": "list",
+               "second_i32": "i32"}.get(ip)
+        st2 = d["stamps"][:len(d["poses2"])] if d["stamps"] is not None else None
+        t1 = build(d["poses"], d["stamps"], how if ip.startswith("first") else None)
+        t2 = build(d["poses2"], st2, how if ip.startswith("second") else None)
         snap = (np.array(t1.poses_se3).tobytes(), t1.positions_xyz.tobytes())
         out["positions_are_pose_translations"] = bool(np.array_equal(t1.positions_xyz, d["poses"][:, :3, 3]))
+        if ip.startswith("first"):
+            # the pose matrices are derived by evo from the quaternions: the model is given the rotation blocks the
+            # implementation uses (as it is given the Euler angles and speeds), the positions stay the given ones
+            derived = np.array(t1.poses_se3, dtype=float)
+            out["positions_are_pose_translations"] = bool(out["positions_are_pose_translations"] and np.array_equal(
+                derived[:, :3, 3], d["poses"][:, :3, 3]) and derived.shape == d["poses"].shape)
+            derived[:, :3, 3] = d["poses"][:, :3, 3]
+            out["poses1"] = [[hexf(float(v)) for v in m.ravel()] for m in derived]
+            out["positions_dtype"] = str(np.asarray(t1.positions_xyz).dtype)
+        if ip.startswith("second"):
+            out["positions2_ok"] = bool(np.array_equal(t2.positions_xyz, d["poses2"][:, :3, 3]))
+            out["positions_dtype"] = str(np.asarray(t2.positions_xyz).dtype)
         # --- prepare_axis + traj + markers (as evo_traj / evo_ape do with the settings)
         fig = plt.figure()
         ax = plot.prepare_axis(fig, mode, length_unit=unit)
@@ -340,9 +393,12 @@ def expr_scenario(case, out):
     scale = unhex(case["settings"]["plot_axis_marker_scale"])
     angles = out.get("angles") or []
     speeds_in = out.get("speeds_in") or []
+    poses1 = d["poses"]
+    if out.get("poses1"):
+        poses1 = np.array([[unhex(v) for v in m] for m in out["poses1"]], dtype=float).reshape(-1, 4, 4)
     return ("scenario %s %s FloatConst.deg_per_rad %s [%s] [%s] %s %s [%s] %s %s %s %s" % (
         PM[case["mode"]], LU[case["unit"]], cf(scale),
-        "; ".join(_cpose(p) for p in d["poses"]), "; ".join(_cpose(p) for p in d["poses2"]),
+        "; ".join(_cpose(p) for p in poses1), "; ".join(_cpose(p) for p in d["poses2"]),
         _copt(d["stamps"], cflist), _copt(d["start"], cf),
         "; ".join(_cv3(a) for a in angles), cflist(speeds_in), cflist(d["err"]), _copt(d["err_x"], cflist),
         "true" if case["cumulative"] else "false"))
@@ -413,6 +469,8 @@ def judge_scenario(case, val, out):
     st = case["settings"]
     if not out["positions_are_pose_translations"]:
         return _tie("positions", "positions_xyz is not the translation column of poses_se3")
+    if out.get("positions2_ok") is False:
+        return _tie("positions", "positions_xyz of the second trajectory is not the integer array it was built from")
     if not out.get("inputs_unchanged", True):
         return _viol("inputs", "plotting modified the trajectory")
     # ---- axis labels
@@ -659,13 +717,14 @@ def default_settings():
 
 
 def mk(mode, unit, n, seed, gen="random", stamps=True, start="none", err_x="none", cumulative=False,
-       entry="traj", epoch=False, corr_mismatch=False, **settings):
+       entry="traj", epoch=False, corr_mismatch=False, int_pos="none", **settings):
     s = default_settings()
     for k, v in settings.items():
         s[k] = hexf(v) if k == "plot_axis_marker_scale" else v
     return {"kind": "scenario", "mode": mode, "unit": unit, "n": int(n), "seed": int(seed), "gen": gen,
             "stamps": bool(stamps), "start": start if stamps else "none", "err_x": err_x, "cumulative": bool(cumulative),
-            "entry": entry, "epoch": bool(epoch), "corr_mismatch": bool(corr_mismatch), "settings": s}
+            "entry": entry, "epoch": bool(epoch), "corr_mismatch": bool(corr_mismatch), "int_pos": int_pos,
+            "settings": s}
 
 
 def corpus():
@@ -677,6 +736,18 @@ def corpus():
         out.append(mk(m, "centimeters", 4, 4, start="zero", plot_axis_marker_scale=0.0, plot_start_end_markers=False,
                       plot_pose_correspondences=False))
         out.append(mk(m, "meters", 4, 5, corr_mismatch=True, plot_axis_marker_scale=-1.0))
+    # whole-number waypoints handed over as integers (the trajectory keeps the integer dtype) for the first / the second
+    # trajectory of the correspondence edges, the other one fractional; x arrays of the error plot that are not
+    # increasing (time within the lap, decreasing, repeated values, arbitrary order)
+    for i, m in enumerate(MODES):
+        out.append(mk(m, "meters", 4, 6, gen="dyadic", int_pos="first", err_x="lap"))
+        out.append(mk(m, "centimeters", 5, 7, gen="dyadic", stamps=False, int_pos="second_list", err_x="ties",
+                      cumulative=True))
+        out.append(mk(m, LENGTH_UNITS[i % 4], 6, 8 + i, gen=("random", "utm")[i % 2], stamps=i % 3 != 0,
+                      start=("none", "first", "other")[i % 3],
+                      int_pos=("first_list", "first_i32", "second", "second_i32")[i % 4],
+                      err_x=("decreasing", "shuffled")[i % 2], entry=("traj", "trajectories")[(i // 2) % 2],
+                      cumulative=i % 4 == 3))
     return out
 
 
@@ -700,7 +771,8 @@ def scenario_cases(ctx):
                 start = rng.choice(["zero", "first", "other"])
             out.append(mk(m, u, n, rng.randrange(10 ** 6),
                           gen=rng.choice(["random", "random", "dyadic", "utm"]), stamps=stamps, start=start,
-                          err_x=rng.choice(["none", "seconds", "distances"]) if stamps else rng.choice(["none", "distances"]),
+                          err_x=rng.choice((["none", "seconds", "distances"] if stamps else ["none", "distances"]) * 2
+                                           + ["lap", "decreasing", "ties", "shuffled"]),
                           cumulative=rng.random() < 0.3, entry=rng.choice(["traj", "traj", "trajectories"]),
                           epoch=rng.random() < 0.3, corr_mismatch=rng.random() < 0.1,
                           plot_start_end_markers=rng.random() < 0.7,
@@ -709,7 +781,8 @@ def scenario_cases(ctx):
                           plot_xyz_realistic=rng.random() < 0.5, plot_show_legend=rng.random() < 0.5,
                           plot_invert_xaxis=rng.random() < 0.3, plot_invert_yaxis=rng.random() < 0.3,
                           plot_show_axis=rng.random() < 0.8,
-                          euler_angle_sequence=rng.choice(["sxyz", "sxyz", "szyx", "rzyx"])))
+                          euler_angle_sequence=rng.choice(["sxyz", "sxyz", "szyx", "rzyx"]),
+                          int_pos=rng.choice(["none"] * 15 + ["first", "first_list", "first_i32", "second", "second_list"])))
     if not ctx.quick:
         for m in MODES:   # the upper end of the quantifier: 500 poses in every mode
             out.append(mk(m, rng.choice(LENGTH_UNITS), 500, rng.randrange(10 ** 6), start="other", err_x="seconds",
@@ -759,8 +832,8 @@ def shrink(case):
             c["settings"][k] = v
             yield c
     for k, v in (("gen", "dyadic"), ("epoch", False), ("entry", "traj"), ("corr_mismatch", False), ("cumulative", False),
-                 ("err_x", "none")):
-        if case[k] != v:
+                 ("err_x", "none"), ("int_pos", "none")):
+        if case.get(k, v) != v:
             c = json.loads(json.dumps(case))
             c[k] = v
             yield c
@@ -805,12 +878,15 @@ def run(ctx, replay=None, proofs_ok=True):
                     "n<=%d" % (10 ** len(str(c["n"]))), "gen:" + c["gen"],
                     "markers:%s" % c["settings"]["plot_start_end_markers"],
                     "axes_scale:%s" % unhex(c["settings"]["plot_axis_marker_scale"]),
-                    "correspondences:%s" % c["settings"]["plot_pose_correspondences"]):
+                    "correspondences:%s" % c["settings"]["plot_pose_correspondences"],
+                    "integer_positions:%s" % c.get("int_pos", "none"), "error_x_array:%s" % c["err_x"]):
             hist[key] = hist.get(key, 0) + 1
     cov = {"evaluations": stats_s["evaluations"] + stats_i["evaluations"],
            "distinct_nontrivial": stats_s["distinct_nontrivial"],
            "rule": "scenario = (plot mode, length unit, n poses, data generator, with/without timestamps, start time, "
-                   "marker / correspondence / legend / inversion / aspect settings); every scenario calls prepare_axis, "
+                   "marker / correspondence / legend / inversion / aspect settings, float or integer-typed positions of "
+                   "either trajectory, x array of the error plot: none / seconds / distances / lap time / decreasing / "
+                   "repeated values / arbitrary order); every scenario calls prepare_axis, "
                    "traj|trajectories, traj_colormap, draw_coordinate_axes, draw_correspondence_edges, traj_xyz, traj_rpy, "
                    "speeds, error_array and compares every new artist's data with the Coq model; distinct by case; "
                    "non-trivial = >= 3 poses, pairwise different coordinate columns, a non-identity rotation. "
